@@ -239,7 +239,7 @@ theorem only_route_panics (n : Nat) (s s' : Mux.State) (l : Mux.Label) (hs : Mux
 /-! ### non-vacuity of the hypotheses -/
 
 namespace Examples
-open Header
+open Header Mux
 
 def hrun (hdr : Bytes) : List Header.Label → Header.State → Option Header.State
   | [], s => some s
@@ -270,6 +270,41 @@ example : ∃ s, Header.Reachable [1#8, 2#8] s ∧ s.failed = false ∧
     simp [hsched, hrun, Header.step, Header.init, Header.State.setPc, Header.written] at h
     subst h
     simp
+
+def mrun (n : Nat) : List Mux.Label → Mux.State → Option Mux.State
+  | [], s => some s
+  | l :: ls, s => (Mux.step n s l).bind (mrun n ls)
+
+theorem mrun_reachable (n : Nat) (ls : List Mux.Label) :
+    ∀ s s', Mux.Reachable n s → mrun n ls s = some s' → Mux.Reachable n s' := by
+  induction ls with
+  | nil => intro s s' h e; cases e; exact h
+  | cons l ls ih =>
+    intro s s' h e
+    simp only [mrun] at e
+    cases hs : Mux.step n s l with
+    | none => rw [hs] at e; cases e
+    | some s1 => rw [hs] at e; exact ih s1 s' (Mux.Reachable.step l h hs) e
+
+/-- Route("\x01"), an Accept on it, a connection "\x01\x09" is routed and delivered, then the context is
+    cancelled and everything runs to quiescence. -/
+def msched : List Mux.Label :=
+  [.route [1#8], .acceptCall 0 1, .accCheck 0, .baseConn 0, .clientData 0 [1#8, 9#8], .readDone 0, .lookup 0,
+   .deliver 0 0, .cancel, .monFire 1, .monDelete 1, .runStep, .runStep, .runStep, .runStep, .runStep]
+
+set_option linter.unusedSimpArgs false in
+example : ∃ s, Mux.Reachable 1 s ∧ s.mdone = true ∧ Mux.Quiescent 1 s ∧ s.accepted = [(1, 0, false)] ∧
+    s.acc 0 = .retConn 1 0 false := by
+  cases h : mrun 1 msched Mux.init with
+  | none => simp [msched, mrun, Mux.step, Mux.init, State.setConn, State.setAcc, State.setMon, State.closeLis, State.muHeld, lookupRoute] at h
+  | some s =>
+    refine ⟨s, mrun_reachable _ _ _ _ Mux.Reachable.init h, ?_⟩
+    simp [msched, mrun, Mux.step, Mux.init, State.setConn, State.setAcc, State.setMon, State.closeLis, State.muHeld, lookupRoute] at h
+    subst h
+    refine ⟨rfl, ?_, by simp, by simp⟩
+    intro l hl
+    cases l <;> simp [Label.internal] at hl <;> simp [Mux.step, State.muHeld]
+    all_goals (rename_i x; by_cases h0 : x = 0 <;> by_cases h1 : x = 1 <;> simp [h0, h1])
 
 end Examples
 
